@@ -257,33 +257,39 @@ func solveAll(obs []*Oblig, outDir string, timeoutS int, workers int) {
 				return
 			}
 			if o.Kind == "vacuity" {
-				// reachability cover (a satisfiability question): quantified context facts make solvers answer
-				// `unknown`; a short attempt on the full query, then one without the quantified assertions.
-				// Dropping assertions only weakens the context: `unsat` (vacuous) is trusted from either,
-				// `sat` from the weakened query is a smoke test and is labelled as such.
+				// reachability cover (a satisfiability question). Quantified context facts make solvers answer
+				// `unknown` or spend the whole timeout, so the query WITHOUT its quantified assertions goes
+				// first: dropping assertions only weakens the context, so `unsat` there is a genuine vacuity
+				// verdict, and `sat` is a smoke test labelled /noquant. Only an inconclusive answer is
+				// followed by the full query.
 				tc := timeoutS
-				if tc > 4 {
-					tc = 4
+				if tc > 5 {
+					tc = 5
 				}
-				st, who, out, d := raceSolvers(file, tc)
-				if st != "sat" && st != "unsat" {
-					q := o.gen.query(o, "")
-					var keep []string
-					for _, ln := range strings.Split(q, "\n") {
-						if strings.HasPrefix(ln, "(assert") && strings.Contains(ln, "(forall ") {
-							continue
-						}
-						keep = append(keep, ln)
+				q := o.gen.query(o, "")
+				var keep []string
+				dropped := 0
+				for _, ln := range strings.Split(q, "\n") {
+					if strings.HasPrefix(ln, "(assert") && strings.Contains(ln, "(forall ") {
+						dropped++
+						continue
 					}
-					f2 := filepath.Join(outDir, fileSafe(o.Name)+".noquant.smt2")
-					os.WriteFile(f2, []byte(strings.Join(keep, "\n")), 0644)
-					st2, who2, out2, d2 := raceSolvers(f2, tc)
-					d += d2
-					if st2 == "sat" {
-						st, who, out = st2, who2+"/noquant", out2
-					}
+					keep = append(keep, ln)
 				}
-				o.Status, o.Solver, o.Output, o.Ms = st, who, out, d.Milliseconds()
+				if dropped == 0 {
+					st, who, out, d := raceSolvers(file, tc)
+					o.Status, o.Solver, o.Output, o.Ms = st, who, out, d.Milliseconds()
+					return
+				}
+				f2 := filepath.Join(outDir, fileSafe(o.Name)+".noquant.smt2")
+				os.WriteFile(f2, []byte(strings.Join(keep, "\n")), 0644)
+				st, who, out, d := raceSolvers(f2, tc)
+				if st == "sat" || st == "unsat" {
+					o.Status, o.Solver, o.Output, o.Ms = st, who+"/noquant", out, d.Milliseconds()
+					return
+				}
+				st2, who2, out2, d2 := raceSolvers(file, tc)
+				o.Status, o.Solver, o.Output, o.Ms = st2, who2, out2, (d + d2).Milliseconds()
 				return
 			}
 			if len(o.Opaque) == 0 {
